@@ -534,6 +534,38 @@ func aolHistory(e *aolEnv, rng *rand.Rand, p aolPools, steps int) {
 	}
 }
 
+// monC13OffsetWalk: an offset-style walk through an owner's topics that changes its page size on the way — first page
+// of one item, then "all the rest" (offset 1, the largest limit) — must still deliver every topic once.
+func monC13OffsetWalk(s *Stream) {
+	s.Emit("mon.c13.offset-walk limit=max", guard(func() string {
+		c, err := NewChain(memDB(), tmpHome(), nil, 0, nil)
+		if err != nil {
+			return "pass #no-chain " + err.Error()
+		}
+		c.Begin(time.Unix(1700000000, 0).UTC())
+		g := sdk.WrapSDKContext(c.DeliverCtx())
+		ms := aolkeeper.NewMsgServerImpl(c.App.AolKeeper)
+		owner := sdk.AccAddress([]byte("offset-walk-owner-xx")).String()
+		for _, t := range []string{"t1", "t2", "t3"} {
+			if _, err := ms.CreateTopic(g, &aoltypes.MsgCreateTopicRequest{TopicName: t, OwnerAddress: owner}); err != nil {
+				return "pass #setup " + err.Error()
+			}
+		}
+		var got []string
+		for _, pg := range []*query.PageRequest{{Offset: 0, Limit: 1, CountTotal: true}, {Offset: 1, Limit: ^uint64(0), CountTotal: true}} {
+			r, err := c.App.AolKeeper.Topics(g, &aoltypes.QueryTopicsRequest{OwnerAddress: owner, Pagination: pg})
+			if err != nil {
+				return "fail #query " + err.Error()
+			}
+			got = append(got, r.TopicNames...)
+		}
+		if strings.Join(got, ",") != "t1,t2,t3" {
+			return "fail #walk-lost-items got=" + strings.Join(got, ",")
+		}
+		return "pass"
+	}))
+}
+
 func newAolEnv(s *Stream) *aolEnv {
 	c, err := NewChain(memDB(), tmpHome(), nil, 0, nil)
 	if err != nil {
@@ -549,6 +581,7 @@ func init() {
 		defer s.Close(dir, "aol")
 		e := newAolEnv(s)
 		p := mkAolPools()
+		monC13OffsetWalk(s)
 		for h := 0; h < n; h++ {
 			aolHistory(e, rng, p, 20+rng.Intn(40))
 		}
